@@ -50,3 +50,5 @@ def run(ctx):
             args.update({k: v for k, v in rec["sig"].items() if k in ("iP", "iT", "iF", "smear", "tForm", "slope", "tsub")})
             ctx.violation(MODULE, "replay:" + d.field.split("[")[0], args, {"record": {k: rec[k] for k in ("cad", "sig", "sels", "raiseAt", "raised")},
                                                                           "field": d.field, "expected": d.expected, "observed": d.observed})
+    from . import c18
+    c18.trace_leg(ctx, "C16", inject_heavy=True)
